@@ -141,7 +141,19 @@ async fn a_write(op: &Value) -> Value {
             // future dropped here; a fresh one for the same buffer follows (legal per AsyncWrite contract)
         }
         let mut rest = chunk;
+        if op.get("write_all").and_then(|v| v.as_bool()) == Some(true) {
+            // the convenience most callers use; it trusts the count the writer reports
+            if let Err(e) = w.write_all(rest).await {
+                let mut v = io_err_json(&e, "write");
+                v["chunk"] = json!(i);
+                return v;
+            }
+            rest = &rest[rest.len()..];
+        }
         loop {
+            if rest.is_empty() && op.get("write_all").and_then(|v| v.as_bool()) == Some(true) {
+                break;
+            }
             match w.write(rest).await {
                 Ok(k) => {
                     if k > rest.len() {
